@@ -9,7 +9,7 @@ LEVEL_NOTE_COMMON = (
     "Trusted: Coq 8.16.1 kernel + vm_compute; the hand-written Gallina model (tied to /repo by the "
     "correspondence check that runs model and implementation on the same inputs, by data regenerated from "
     "the imported modules and - where named - by programs/methods regenerated from the source by the fail-closed "
-    "translators harness/robot_translate.py and harness/pytr.py, whose reading of each Python statement form is trusted); "
+    "translators harness/robot_translate.py, harness/pytr.py, harness/exec_translate.py and harness/c15_translate.py, whose reading of each Python statement form is trusted); "
     "the Python harness; CPython/wpilib-sim/ntcore. No axioms of our own; "
     "Print Assumptions of every property theorem is checked on every run. ")
 
@@ -39,9 +39,9 @@ CLAIMED = {
              "with the successor's clock at the predecessor's expiry; every entered state runs once with initial_call exactly on its "
              "first call after each entry; actions take effect next iteration; nothing runs after the end; state_tm >= 0; and period "
              "independence: trace(h ++ OnEnable d :: p) = trace h ++ trace(OnEnable d :: p). Legacy (pre-fix D6) variant refuted. "
-             "Tied to StatefulAutonomous by trace correspondence (generated subclasses, dyadic tm, real SmartDashboard).",
+             "Tied to StatefulAutonomous by on_iteration/next_state/done translated from the source on every run and proved equal to the model functions for every machine state, tm and user code, and by trace correspondence (generated subclasses, dyadic tm, real SmartDashboard).",
         note="Closed under the global context. Float rounding not modelled (dyadic tm values in the correspondence).",
-        technique="Coq proof (induction over histories, trace equality/refinement) + trace correspondence evaluated in Coq",
+        technique="Coq proof (induction over histories, trace equality/refinement) + on_iteration/next_state/done regenerated from the source statement by statement and proved equal to the model (c15_translate, Stateful/SrcIterProofs.v) + trace correspondence evaluated in Coq",
         design="6.3"),
     "C08": dict(
         text="Theorems (Coq, every robot definition and subclass relation): after startup every public unset annotated attribute of every "
@@ -69,7 +69,7 @@ CLAIMED = {
              "(through done()) as soon as no must_finish state runs and only the default state runs until engage(); with it exactly "
              "1 + #next_state_now state functions run; the invariant used is preserved by every operation. Tied to StateMachine.execute by "
              "full-trace correspondence on generated machines/scripts/histories.",
-        note='Closed under the global context. Theorems that mention `ok` hold inside the usage contract K (DESIGN 6.1: in-state actions only while executing, no explicit transition into the default state, non-decreasing clock, no exception); clock arithmetic idealised over Z ticks (dyadic clocks in the correspondence); single-threaded use.', technique="Coq proof (invariants by induction on fuel and on histories) + trace correspondence evaluated in Coq", design="6.1"),
+        note='Closed under the global context. Theorems that mention `ok` hold inside the usage contract K (DESIGN 6.1: in-state actions only while executing, no explicit transition into the default state, non-decreasing clock, no exception); clock arithmetic idealised over Z ticks (dyadic clocks in the correspondence); single-threaded use.', technique="Coq proof (invariants by induction on fuel and on histories) + execute() and the nine methods around it regenerated from the source and proved equal to the model (exec_translate / sm_translate, SM/SrcExecProofs.v) + trace correspondence evaluated in Coq", design="6.1"),
     "C02": dict(
         text="Theorems (Coq): a timed state that has run holds until tm exceeds entry+duration; at the first iteration past it control goes to "
              "next_state whose clock starts at the predecessor's expiry and whose expiry uses its duration tunable as of that moment; the last "
@@ -77,25 +77,25 @@ CLAIMED = {
              "always runs once; duration writes do not move an entered state's expiry; state_tm >= 0 on every call of every history; NO DRIFT: "
              "for every non-decreasing list of iteration instants a continuously engaged quiet machine enters every state exactly at the previous "
              "state's expiry (chain theorem, across cycle restarts). Tied by full-trace correspondence incl. duration writes over NetworkTables.",
-        note='Closed under the global context. Theorems that mention `ok` hold inside the usage contract K (DESIGN 6.1: in-state actions only while executing, no explicit transition into the default state, non-decreasing clock, no exception); clock arithmetic idealised over Z ticks (dyadic clocks in the correspondence); single-threaded use.', technique="Coq proof (symbolic execution lemmas per phase + invariant + chain induction) + trace correspondence evaluated in Coq", design="6.1"),
+        note='Closed under the global context. Theorems that mention `ok` hold inside the usage contract K (DESIGN 6.1: in-state actions only while executing, no explicit transition into the default state, non-decreasing clock, no exception); clock arithmetic idealised over Z ticks (dyadic clocks in the correspondence); single-threaded use.', technique="Coq proof (symbolic execution lemmas per phase + invariant + chain induction) + execute() and the nine methods around it regenerated from the source and proved equal to the model (exec_translate / sm_translate, SM/SrcExecProofs.v) + trace correspondence evaluated in Coq", design="6.1"),
     "C03": dict(
         text="Theorems (Coq): the call adapter passes the i-th declared parameter its own value for every declared list; over every history and "
              "every user code (no contract needed) initial_call is True exactly on the first call since the state was entered (reference automaton "
              "over observable next_state()/fallback events); tm is 0 at the first iteration after engage() on a stopped machine, tm = clock - origin "
              "and state_tm = tm - entry, both non-negative on every call. Tied by correspondence with all 16 parameter orders x 3 decorators.",
-        note='Closed under the global context. Theorems that mention `ok` hold inside the usage contract K (DESIGN 6.1: in-state actions only while executing, no explicit transition into the default state, non-decreasing clock, no exception); clock arithmetic idealised over Z ticks (dyadic clocks in the correspondence); single-threaded use.', technique="Coq proof (trace refinement to a reference automaton, invariants) + trace correspondence evaluated in Coq", design="6.1"),
+        note='Closed under the global context. Theorems that mention `ok` hold inside the usage contract K (DESIGN 6.1: in-state actions only while executing, no explicit transition into the default state, non-decreasing clock, no exception); clock arithmetic idealised over Z ticks (dyadic clocks in the correspondence); single-threaded use.', technique="Coq proof (trace refinement to a reference automaton, invariants) + execute() and the nine methods around it regenerated from the source and proved equal to the model (exec_translate / sm_translate, SM/SrcExecProofs.v) + trace correspondence evaluated in Coq", design="6.1"),
     "C04": dict(
         text="Theorems (Coq): whatever operation takes is_executing from True to False, done() was invoked (no contract needed); done()/on_disable() "
              "reset is_executing/current_state at once; in every reachable stopped state current_state is '' and only the default state runs until "
              "engage(); the next engage()+iteration calls the first/requested state with initial_call True, tm 0; while executing, current_state names "
              "the machine's non-default state. Tied by full-trace correspondence (done()/next_state() observed through overrides).",
-        note='Closed under the global context. Theorems that mention `ok` hold inside the usage contract K (DESIGN 6.1: in-state actions only while executing, no explicit transition into the default state, non-decreasing clock, no exception); clock arithmetic idealised over Z ticks (dyadic clocks in the correspondence); single-threaded use.', technique="Coq proof (invariants, drop-claim composition) + trace correspondence evaluated in Coq", design="6.1"),
+        note='Closed under the global context. Theorems that mention `ok` hold inside the usage contract K (DESIGN 6.1: in-state actions only while executing, no explicit transition into the default state, non-decreasing clock, no exception); clock arithmetic idealised over Z ticks (dyadic clocks in the correspondence); single-threaded use.', technique="Coq proof (invariants, drop-claim composition) + execute() and the nine methods around it regenerated from the source and proved equal to the model (exec_translate / sm_translate, SM/SrcExecProofs.v) + trace correspondence evaluated in Coq", design="6.1"),
     "C13": dict(
         text="Theorems (Coq): on_iteration with the latch on is exactly engage(); execute(); latch := is_executing; once done() is invoked in an "
              "iteration (any nesting depth, or last timed state expired) the iteration ends stopped with the latch off - the machine never cycles; "
              "then every on_iteration is a no-op (not even the default state runs) until on_enable(), which restarts at the first state with tm 0; "
              "on_disable() stops immediately. Tied by full-trace correspondence on generated AutonomousStateMachine subclasses over 1..n periods.",
-        note='Closed under the global context. Theorems that mention `ok` hold inside the usage contract K (DESIGN 6.1: in-state actions only while executing, no explicit transition into the default state, non-decreasing clock, no exception); clock arithmetic idealised over Z ticks (dyadic clocks in the correspondence); single-threaded use.', technique="Coq proof (induction on fuel/histories) + trace correspondence evaluated in Coq", design="6.1"),
+        note='Closed under the global context. Theorems that mention `ok` hold inside the usage contract K (DESIGN 6.1: in-state actions only while executing, no explicit transition into the default state, non-decreasing clock, no exception); clock arithmetic idealised over Z ticks (dyadic clocks in the correspondence); single-threaded use.', technique="Coq proof (induction on fuel/histories) + execute() and the nine methods around it regenerated from the source and proved equal to the model (exec_translate / sm_translate, SM/SrcExecProofs.v) + trace correspondence evaluated in Coq", design="6.1"),
     "C16": dict(
         text="Theorems (Coq, every period, start time and list of body durations over Z microseconds): expiry stays on the t0+k*P grid; the k-th wait "
              "returns at max(call, t0+k*P), never early, exactly on the grid when called on time; overruns are caught up (lateness recurrence and bound); "
